@@ -220,6 +220,9 @@ int rbtree_copy(const rbtree_t *tree, rbtree_t *out)
 		out->root = copy_node(out, tree, tree->root);
 
 		if (out->root == NULL) {
+#ifndef NO_CUSTOM_ALLOC
+			mem_pool_destroy(out->pool);
+#endif
 			memset(out, 0, sizeof(*out));
 			return SQFS_ERROR_ALLOC;
 		}
